@@ -170,6 +170,15 @@ Theorem C14_opes_same_list : forall (K : Type) (rounds : list (list K)) (n k : n
 Proof. exact @opes_same_list. Qed.
 Print Assumptions C14_opes_same_list.
 
+(* Exactly once, by position: when every round has one kernel per walker (n of them, in rank order), the list that any
+   walker holds has rounds*n entries, and entry r*n+p is the kernel walker p contributed in round r. *)
+Theorem C14_opes_every_kernel_once : forall (K : Type) (rounds : list (list K)) (n k : nat) (l : list K),
+  Forall (fun c => length c = n) rounds -> nth_error (opes_run rounds n) k = Some l ->
+  length l = (length rounds * n)%nat /\
+  forall r p c, nth_error rounds r = Some c -> (p < n)%nat -> nth_error l (r * n + p) = nth_error c p.
+Proof. exact @opes_every_kernel_once. Qed.
+Print Assumptions C14_opes_every_kernel_once.
+
 (* ... and the sums of weights that normalise the bias (sum of weights, sum of squared weights; neff, rct and the
    kernel normalisation are functions of them and of the common counter): the running sum that every walker holds
    is its initial value plus every contribution of every walker of every round, each exactly once. *)
